@@ -83,7 +83,11 @@ func c10EvalEscape(b []byte, startLoc int, bnl bool) string {
 	return ""
 }
 
-func c10EvalPublic(b []byte) string {
+func c10EvalPublic(b []byte, rets ...*retained) string {
+	var ret *retained
+	if len(rets) > 0 {
+		ret = rets[0]
+	}
 	in := append(make([]byte, 0, len(b)+8), b...)
 	em := redact.EscapeMarkers(in)
 	if !bytes.Equal(in, b) {
@@ -98,7 +102,12 @@ func c10EvalPublic(b []byte) string {
 	if em2 := redact.EscapeMarkers(em); !bytes.Equal(em2, em) {
 		return fmt.Sprintf("EscapeMarkers not idempotent on %q", b)
 	}
+	ret.keep(em, fmt.Sprintf("EscapeMarkers(%q)", b))
 	eb := []byte(redact.EscapeBytes(in))
+	ret.keep(eb, fmt.Sprintf("EscapeBytes(%q)", b))
+	if d := ret.check(); d != "" {
+		return d
+	}
 	if !bytes.Equal(in, b) {
 		return fmt.Sprintf("EscapeBytes modified its input %q -> %q", b, in)
 	}
@@ -222,7 +231,7 @@ func checkC10(c *Ctx) {
 	c.Section("C10/public", map[string]interface{}{"alphabet": alphaB, "max_len": n, "functions": "EscapeMarkers, EscapeBytes"}, en.Total, func(i int, w *Worker) {
 		b := en.Get(i, nil)
 		w.Eval()
-		if d := c10EvalPublic(b); d != "" {
+		if d := c10EvalPublic(b, w.Retained()); d != "" {
 			w.Fail("public", c10case{B: b, Q: q(string(b))}, d)
 		}
 		w.SeenB(redact.EscapeBytes(b))
